@@ -142,6 +142,8 @@ def exhaustive(ctx, stats):
             stats.evaluations += 1
             if changed:
                 stats.nontrivial.add(cp * 8 + CONTEXTS.index((fmt, label)))
+                if len(stats.samples) < 2 and cp % 4099 == 33:
+                    stats.samples.append({"name": name, "attribute": image, "context": label})
             probs = name_problems(name, image)
             if not probs and (label == "a+c" and (changed and cp % 7 == 0 or cp % stride == 0)):
                 e2e += 1
